@@ -14,8 +14,8 @@ import (
 	"sigs.k8s.io/controller-runtime/pkg/client"
 
 	"github.com/openkruise/rollouts/api/v1beta1"
-	"github.com/openkruise/rollouts/pkg/webhook/rollout/validating"
 	"github.com/openkruise/rollouts/pkg/util"
+	"github.com/openkruise/rollouts/pkg/webhook/rollout/validating"
 
 	"verif/harness/simapi"
 )
@@ -24,13 +24,14 @@ import (
 type FaultPlan struct {
 	CrashAfterWrite int    `json:"crashAfterWrite,omitempty"` // k-th controller write after release start (1-based); 0 = none
 	FailCall        int    `json:"failCall,omitempty"`        // k-th controller call after release start (1-based); 0 = none
+	FailWriteCall   int    `json:"failWriteCall,omitempty"`   // k-th controller write call (create/update/patch/delete, incl. no-ops) after release start; 0 = none
 	FailKind        string `json:"failKind,omitempty"`        // error | timeout | conflict | lost
 	Random          int    `json:"random,omitempty"`          // number of additional random faults
 	RandomCrash     int    `json:"randomCrash,omitempty"`
 }
 
 func (f *FaultPlan) Empty() bool {
-	return f == nil || (f.CrashAfterWrite == 0 && f.FailCall == 0 && f.Random == 0 && f.RandomCrash == 0)
+	return f == nil || (f.CrashAfterWrite == 0 && f.FailCall == 0 && f.FailWriteCall == 0 && f.Random == 0 && f.RandomCrash == 0)
 }
 
 func isControllerActor(a string) bool {
@@ -54,6 +55,7 @@ type Run struct {
 	userQueue      []string
 	ctrlWrites     int
 	ctrlCalls      int
+	ctrlWriteCalls int
 	armed          bool
 	randFaultAt    map[int]string
 	randCrashAt    map[int]bool
@@ -62,6 +64,8 @@ type Run struct {
 	TimedWaits     int
 	Trace          []string
 	KeepTrace      bool
+	// BeforeUser, if set, runs before every user action (the concurrent scheduler lets reconciles in flight finish).
+	BeforeUser func()
 
 	// results
 	Terminal    bool
@@ -110,6 +114,9 @@ func (r *Run) trace(f string, a ...interface{}) {
 func (r *Run) CtrlWrites() int { return r.ctrlWrites }
 func (r *Run) CtrlCalls() int  { return r.ctrlCalls }
 
+// CtrlWriteCalls counts the controllers' write calls (incl. no-op writes) since the release started.
+func (r *Run) CtrlWriteCalls() int { return r.ctrlWriteCalls }
+
 // Mode is the expectation the run ends with: release | rolledback | rollback-batches | deleted | disabled | bg-superseded.
 func (r *Run) Mode() string { return r.mode }
 
@@ -123,8 +130,15 @@ func (r *Run) installHooks() {
 			return nil
 		}
 		r.ctrlCalls++
+		isWrite := c.Verb != "get" && c.Verb != "list"
+		if isWrite {
+			r.ctrlWriteCalls++
+		}
 		kind := ""
 		if r.Faults != nil && r.Faults.FailCall == r.ctrlCalls {
+			kind = r.Faults.FailKind
+		}
+		if r.Faults != nil && isWrite && r.Faults.FailWriteCall == r.ctrlWriteCalls {
 			kind = r.Faults.FailKind
 		}
 		if k, ok := r.randFaultAt[r.ctrlCalls]; ok {
@@ -133,7 +147,6 @@ func (r *Run) installHooks() {
 		if kind == "" {
 			return nil
 		}
-		isWrite := c.Verb != "get" && c.Verb != "list"
 		switch kind {
 		case "conflict":
 			if !isWrite || c.Verb == "create" || c.Verb == "delete" {
@@ -368,6 +381,9 @@ func (r *Run) checkTriggers() {
 }
 
 func (r *Run) doUser(a string) {
+	if r.BeforeUser != nil {
+		r.BeforeUser()
+	}
 	s, w := r.S, r.W
 	user := w.Store.As("user")
 	c := context.TODO()
